@@ -4,10 +4,13 @@
 set -u
 P=$1; shift
 cd /verif
+# evidence files must describe runs on the unchanged tree: keep them aside while the seed is applied
+rm -rf .work/evidence.keep && mkdir -p .work && cp -r evidence .work/evidence.keep
 git -C /repo apply "$P" || { echo "PATCH DOES NOT APPLY TO /repo"; exit 2; }
 for c in "$@"; do
   echo "--- ./check $c"
   ./check $c 2>&1 | grep -E "^VIOLATION|^OK|failing input|^  \[" | cut -c1-400
 done
 git -C /repo checkout -- .
+rm -rf evidence && mv .work/evidence.keep evidence
 git -C /repo status --short | head -3
